@@ -67,11 +67,16 @@ def St.ok : St → Bool
   | .NsMember => false
   | _ => true
 
+theorem opZone_ok (hi : Bool) (k : Str) : St.ok (opZone hi k) = true := by
+  unfold opZone
+  repeat' split
+  all_goals rfl
+
 theorem child_ok_obj (c : Ctx) (hns : c.cfg.ns = false) (s : St) (v : J) (f : Str → J → Str × St)
     (h : c.node s v = .obj f) : ∀ k x, St.ok (f k x).2 = true := by
   intro k x
   cases s <;> cases v <;> simp only [node] at h <;> (try (repeat' split at h)) <;>
-    first | (cases h; simp_all [pObj, qObj, St.ok]) | (simp [hns] at h) | cases h
+    first | (cases h; simp_all [pObj, qObj, St.ok]; done) | (cases h; exact opZone_ok _ _) | (simp [hns] at h) | cases h
 
 theorem child_ok_arr (c : Ctx) (s : St) (v : J) (s' : St) (h : c.node s v = .arr s') : St.ok s' = true := by
   cases s <;> cases v <;> simp only [node] at h <;> (try (repeat' split at h)) <;>
